@@ -423,6 +423,8 @@ class Interp:
         if c is not None:
             return c[0]
         v = self._eval_const(text)
+        if isinstance(v, Adt) and '@@' in v.ty:
+            return v            # a macro-generated closure resolved relative to the current body: not cacheable by text
         # immutable, allocation-free constants are computed once
         if isinstance(v, (bool, Int, Unit, FnItem, Extern)) or (isinstance(v, Adt) and not v.fields):
             self._const_cache[text] = (v,)
@@ -454,7 +456,7 @@ class Interp:
             return self.bytes_literal(text)
         m = re.fullmatch(r'ZeroSized: (\{(?:closure|coroutine)@.*\})', text, re.S)
         if m:
-            return Adt(m.group(1), 0, ())
+            return Adt(self.zero_sized_closure_type(mir.normalize_span(m.group(1))), 0, ())
         if text.startswith('ZeroSized: '):
             return FnItem(text[len('ZeroSized: '):])
         if text in self.bodies:
@@ -486,6 +488,10 @@ class Interp:
         so = self._select_out(p)
         if so is not None:
             return Adt(so[0], so[1], ())
+        mv = re.fullmatch(r'(.*)::(\w+)\((.*)\)', p, re.S)
+        if mv and self.adts.has(mv.group(1)):
+            # constant enum value with one payload, e.g. `Result::<Infallible, ()>::Err(())`
+            return Adt(base_ty(mv.group(1)), self.adts.variant_index(mv.group(1), mv.group(2)), [self.eval_const(mv.group(3))])
         if '::' in p:
             ty, vname = p.rsplit('::', 1)
             if self.adts.has(ty):
@@ -1097,6 +1103,27 @@ class Interp:
             if len(mine) == 1:
                 return span + '@@' + mine[0].name
             raise Inconclusive('ambiguous macro-generated closure %s in %s' % (span, self.cur_body.name))
+        return span
+
+    def zero_sized_closure_type(self, span):
+        """a non-capturing closure named only by its span: when a macro gave several closures the same span, take the one that
+        belongs to the current body; siblings inside one body are accepted only if their bodies are identical up to string
+        literals (prost-derive's error-context closures), anything else is inconclusive"""
+        self._closure_index()
+        dups = self.closure_dups.get(span, ())
+        if len(dups) <= 1 or getattr(self, 'cur_body', None) is None:
+            return span
+        pre = self.cur_body.name + '::{closure#'
+        mine = [b for b in dups if b.name.startswith(pre) and '::' not in b.name[len(pre):]]
+        if len(mine) == 1:
+            return span + '@@' + mine[0].name
+        if len(mine) > 1:
+            def shape(b):
+                txt = repr(sorted((k, tuple(v[0]), v[1]) for k, v in b.raw_blocks.items()))
+                return re.sub(r'const "[^"]*"', 'const ""', re.sub(r'\{closure#\d+\}', '{closure}', txt))
+            if len({shape(b) for b in mine}) == 1:
+                return span + '@@' + mine[0].name
+            raise Inconclusive('ambiguous macro-generated closures %s in %s' % (span, self.cur_body.name))
         return span
 
     def closure_body(self, span):
